@@ -698,12 +698,13 @@ pub fn c17_budget(s: u64, layout: &str) -> (u64, u64) {
         "toy" => 2_000,
         _ => 20_000,
     };
+    // bytes: honest runs request about 300-450 bytes per scalar of the proof plus ~0.5 MiB for the
+    // layout's composition evaluation; the budget is ~10x that (calibration: honest <= 1/4)
     let k_bytes: u64 = match layout {
-        "dynamic" | "starknet_with_keccak" => 64 << 20,
-        "toy" => 4 << 20,
-        _ => 32 << 20,
+        "toy" => 1 << 20,
+        _ => 4 << 20,
     };
-    (40 * s + k_ticks, 40_000 * s + k_bytes)
+    (40 * s + k_ticks, 4_000 * s + k_bytes)
 }
 
 pub fn c17(ctx: &mut Ctx) {
